@@ -64,11 +64,12 @@ func (Precompile).EmitSetWithdrawAddressEvent
     // abi.json: event SetWithdrawerAddress(address indexed caller, string withdrawerAddress)
     requires abi: len(p.ABI.Events["SetWithdrawerAddress"].Inputs) == 2
     ensures true
+// any coin list, including the empty one a commission below one base unit yields (finding G4, fixed)
 func (Precompile).EmitWithdrawDelegatorRewardsEvent
-    requires wf: ctx_height(ctx) >= 0 && coins_len(coins) >= 1
+    requires wf: ctx_height(ctx) >= 0 && p.stakingKeeper.Keeper != nil
     ensures true
 func (Precompile).EmitWithdrawValidatorCommissionEvent
-    requires wf: ctx_height(ctx) >= 0 && coins_len(coins) >= 1
+    requires wf: ctx_height(ctx) >= 0 && p.stakingKeeper.Keeper != nil
     ensures true
 
 // C04: rewards are claimed only on the account's own call: every keeper call names the delegator, who is the signer or the
@@ -109,7 +110,7 @@ func (Precompile).SetWithdrawAddress
 
 // C04: pending rewards are paid out only on the account's own call. C16: the call is the native MsgWithdrawDelegatorReward.
 func (Precompile).WithdrawDelegatorRewards
-    requires wf: contract != nil && method != nil && ctx_height(ctx) >= 0 && isdyn(stateDB, *SDB) && dyn(stateDB, *SDB) != nil
+    requires wf: contract != nil && method != nil && ctx_height(ctx) >= 0 && isdyn(stateDB, *SDB) && dyn(stateDB, *SDB) != nil && p.stakingKeeper.Keeper != nil
     let caller = old(contract.CallerAddress)
     let del = dyn(args[0], Address)
     let val = WithdrawStr(args[1])
@@ -124,15 +125,14 @@ func (Precompile).WithdrawDelegatorRewards
     ensures native_fail: decoded && (del == origin || del == caller) && !wdreward_ok(old(cstate), ctx_wrap(ctx), bech_of(del), val) ==> result.1 != nil
     ensures native_ok: result.1 == nil ==> wdreward_ok(old(cstate), ctx_wrap(ctx), bech_of(del), val)
     ensures native_effect: result.1 == nil ==> cstate == wdreward_post(old(cstate), ctx_wrap(ctx), bech_of(del), val)
-    // the EVM balance mirror of the calling contract is credited only when it is the delegator, with the first coin of the reward
-    ensures mirror: result.1 == nil ==> sdb_delta == ite(caller == del, upd(old(sdb_delta), caller, old(sdb_delta)[caller] + coins_at(paid, 0).Amount), old(sdb_delta))
-    // C16 (balances mirror the bank module): the credited amount is the reward in the EVM (bond) denomination
-    ensures mirror_denom: result.1 == nil && caller == del ==> coins_at(paid, 0).Amount == paid[bond_denom(oldheap(*p.stakingKeeper.Keeper), ctx)]
+    // C16 (balances mirror the bank module): the EVM balance mirror of the calling contract is credited only when it is the
+    // delegator, with the reward paid in the EVM (bond) denomination (finding G5, fixed)
+    ensures mirror: result.1 == nil ==> sdb_delta == ite(caller == del, upd(old(sdb_delta), caller, old(sdb_delta)[caller] + paid[bond_denom(oldheap(*p.stakingKeeper.Keeper), ctx)]), old(sdb_delta))
 
 // C04: commission is paid out only on the validator's own call (signer or calling contract is the validator's account).
 // C16: the call is the native MsgWithdrawValidatorCommission.
 func (Precompile).WithdrawValidatorCommission
-    requires wf: contract != nil && method != nil && ctx_height(ctx) >= 0
+    requires wf: contract != nil && method != nil && ctx_height(ctx) >= 0 && p.stakingKeeper.Keeper != nil
     let caller = old(contract.CallerAddress)
     let val = WithdrawStr(args[0])
     let who = bytes_addr(val_of_bech(val))
@@ -141,8 +141,6 @@ func (Precompile).WithdrawValidatorCommission
     call MsgServer.WithdrawValidatorCommission requires who: bytes_addr(val_of_bech(msg.ValidatorAddress)) == origin || bytes_addr(val_of_bech(msg.ValidatorAddress)) == caller
     call MsgServer.WithdrawValidatorCommission requires named: msg.ValidatorAddress == val && goCtx == ctx_wrap(ctx)
     call MsgServer.WithdrawValidatorCommission requires untouched: cstate == old(cstate)
-    // FINDING G4: the native message may succeed with an empty coin list (commission below one base unit); the event code indexes coins[0]
-    call EmitWithdrawValidatorCommissionEvent requires nonempty: coins_len(coins) >= 1
     ensures who: result.1 == nil ==> decoded && (who == origin || who == caller)
     ensures refused: !decoded || (who != origin && who != caller) ==> result.1 != nil && cstate == old(cstate)
     ensures native_fail: decoded && (who == origin || who == caller) && !wdcomm_ok(old(cstate), ctx_wrap(ctx), val) ==> result.1 != nil
